@@ -36,7 +36,7 @@ def cfg_fileread(n, w, k, last, depth, readers=(1, 2), missing=(), export=True):
 FILE_INVS = {
     "C01": ["Inv_Harness_WF", "Inv_NoPanic", "Inv_C01_Dag", "Inv_C01_Read", "Inv_C01_Whole", "Inv_C01_Open", "Inv_C01_SeekEnd"],
     "C04": ["Inv_Harness_WF", "Inv_NoPanic", "Inv_C04_Seek", "Inv_C04_Read", "Inv_C04_NoBudget"],
-    "C05": ["Inv_Harness_WF", "Inv_NoPanic", "Inv_C05_Read", "Inv_C05_Seek", "Inv_C05_Open"],
+    "C05": ["Inv_Harness_WF", "Inv_NoPanic", "Inv_C05_Read", "Inv_C05_Seek", "Inv_C05_Open", "Inv_C05_Subset"],
     "C06": ["Inv_Harness_WF", "Inv_NoPanic", "Inv_C06_Preload"],
     "C12": ["Inv_Harness_WF", "Inv_NoPanic", "Inv_C12_Read", "Inv_C12_Whole", "Inv_C12_NoBudget"],
     "C20": ["Inv_Harness_WF", "Inv_NoPanic", "Inv_C20_Order", "Inv_C20_Complete"],
